@@ -6,19 +6,19 @@ P = {
  "C02": ("exact reference-model comparison of net (account, denomination) deltas and order remainders for every accepted match of seeded histories", "5 C02"),
  "C03": ("two-way accept/refuse conformance of every delivered match request against the statement's predicate, from stale executor views, duplicates and boundary mutations", "5 C03"),
  "C04": ("reference-model comparison of payouts, remainders, removal and partial-size rules on every cancel/expire/reject over order life cycles", "5 C04"),
- "C05": ("sender x request authorisation matrix issued on forks of every visited state plus adversary traffic, judged by the role predicate", "5 C05"),
+ "C05": ("sender x request authorisation matrix (including other spellings of the order id) issued on forks of every visited state plus adversary traffic, judged by the role predicate", "5 C05"),
  "C06": ("bounded-liveness probe: owner cancel and executor expire of every open order on a fork after every step, fault-free, must succeed and make whole", "5 C06"),
  "C07": ("two-way accept/refuse conformance of every create request (one-field mutations x configurations x book x querier state) plus stored order and escrow", "5 C07"),
  "C08": ("approve decisions against the model and the state invariant 'recorded approver amount == remaining size' after every step of convertible life cycles", "5 C08"),
- "C09": ("exact bignum fee arithmetic (half-up, tie rule) for creation fee, ask fee, fill fee, refunds and the pro-rata state invariant of every open fee-bearing bid", "5 C09"),
+ "C09": ("exact bignum fee arithmetic (half-up; tie / near-tie rule derived from the 28-digit error bound) for creation fee, ask fee, fill fee, refunds, returns, the pro-rata state invariant of every open fee-bearing bid and the life-time identity per bid", "5 C09"),
  "C10": ("per-message oracle against the marker answers served, over all 3^k marker tables round-robin and marker-table change faults", "5 C10"),
- "C11": ("whole-book and raw-storage diff before/after every step (frame, monotonicity, well-formedness) in books with many orders and shared ids", "5 C11"),
+ "C11": ("whole-book and raw-storage diff before/after every step (frame, monotonicity, well-formedness) in books with many orders and shared ids, plus a reordering oracle: consecutive operations on different orders must commute", "5 C11"),
  "C12": ("ModifyContract decisions (refusal rules), installed configuration, market-parameter frame and frozen-rate relation across interleaved admin and order traffic", "5 C12"),
  "C13": ("seeded instantiate messages judged both ways with stored records (input generation; said as such) plus integrality consequence over the histories that follow", "5 C13"),
  "C14": ("upgrade fault inside live histories: stored version rewritten, migrate, whole-storage comparison, overrides, version stamp, second identical migrate", "5 C14"),
  "C15": ("bids rewritten to synthesised event logs, migrate, field comparison, and step-by-step refinement of the continuation against a never-converted twin", "5 C15"),
- "C16": ("every query kind x id class after every step compared with raw storage, storage diff around queries, reported amounts vs cancel payout on a fork", "5 C16"),
- "C17": ("response attributes vs ledger and book on every accepted step, and an attribute-only shadow book compared with the real book in every state", "5 C17"),
+ "C16": ("every query kind x id class after every step compared with raw storage (also on the synthesised pre-migration state), storage diff around queries, no completed order ever returned, reported amounts vs cancel payout on a fork", "5 C16"),
+ "C17": ("response attributes vs the model, a model-free comparison of every reported amount with what the ledger and the book show was settled, and an attribute-only shadow book compared with the real book in every state", "5 C17"),
 }
 checks = []
 for pid, (text, ref) in P.items():
@@ -54,7 +54,7 @@ m = {
    "kind_free_text": "hand-written deterministic simulator (Rust): seeded world/actor/mempool/fault generators, SimChain with ledger and rollback, L1 invariants, L2 reference model, fork probes, ddmin, replay"
  }],
  "checks": checks,
- "notes": "All 17 properties are claimed. /repo carries five unguarded 'fix:' commits for genuine defects the checks found (known_findings.json, findings/*.json). quick = fixed run count per property (about 5-10 s each on 16 cores after the shared build); thorough = 20x the runs. exit 2 = harness/build error.",
+ "notes": "All 17 properties are claimed. /repo carries five unguarded 'fix:' commits for genuine defects the checks found (known_findings.json, findings/*.json). quick = fixed run count per property (about 12-25 s each on 16 idle cores after the shared build); thorough = 20x the runs, every fourth run under another property's profile. exit 2 = harness/build error. Sensitivity and false-alarm evidence: mutants/ (28 hand-written breaking changes, 56 property-preserving changes) and seeded/ (breaking changes from independent sub-agents), tables in DESIGN.md section 7.",
  "not_applicable": []
 }
 json.dump(m, open("/verif/MANIFEST.json", "w"), indent=1)
